@@ -19,7 +19,8 @@ theorem good_init (cap : Cap) (simple : Option SpawnSpec) : Good cap (Pool.init 
    fun i tk h _ => by simp [Pool.init] at h,
    ⟨by simp [Pool.init], fun t h => by simp [Pool.init] at h, fun t h => by simp [Pool.init] at h,
     fun t h => by simp [Pool.init] at h, fun _ t tk h _ => by simp [Pool.init] at h⟩,
-   ⟨by simp [Pool.init], fun i hi => by simp [Pool.init] at hi⟩⟩
+   ⟨by simp [Pool.init], fun i hi => by simp [Pool.init] at hi⟩,
+   fun t tk h => by simp [Pool.init] at h⟩
 
 theorem goodC_invariant : PoolInvariant GoodC noSetSize where
   init := by
@@ -42,7 +43,7 @@ theorem good_setSize {cap : Cap} (p : Pool) (v : Int) (hg : Good cap p) : ∃ ca
   split
   · exact ⟨cap, hg⟩
   · exact ⟨.fin (v.toNat + heldL p.tasks + grantsL p.sem.waiters), ⟨v.toNat, rfl, rfl⟩, hg.phase,
-      hg.reg.of_eq rfl rfl rfl rfl rfl, hg.grp.of_eq rfl rfl⟩
+      hg.reg.of_eq rfl rfl rfl rfl rfl, hg.grp.of_eq rfl rfl, hg.life.of_eq rfl rfl⟩
 
 /-- phase and registry invariants (with *some* slot conservation) hold in every pool after **every** history,
 assignments to `pool_size` included -/
@@ -89,6 +90,13 @@ theorem baseAll (base : Nat) (h : History) (i : Nat) (c : Cfg) (p : Pool)
     PhaseOK p ∧ RegOK p := by
   obtain ⟨cap, hg⟩ := (World.reachable baseC_invariant base h (fun x _ => admits_all x)).inv i c p hc hp
   exact ⟨hg.phase, hg.reg⟩
+
+/-- the callback life cycle of every task of every pool of every reachable world -/
+theorem lifeAll (base : Nat) (h : History) (i : Nat) (c : Cfg) (p : Pool)
+    (hc : ((World.init base).run h).cfgs[i]? = some c) (hp : ((World.init base).run h).pools[i]? = some p) :
+    LifeOK p := by
+  obtain ⟨cap, hg⟩ := (World.reachable baseC_invariant base h (fun x _ => admits_all x)).inv i c p hc hp
+  exact hg.life
 
 /-- groups partition the tasks they file, in every pool of every reachable world, whatever the history -/
 theorem groupsAll (base : Nat) (h : History) (i : Nat) (c : Cfg) (p : Pool)
